@@ -471,7 +471,13 @@ fn make_function(name: &str, p: &[i64], attrs: Vec<A>) -> F {
     let mut attrs = attrs;
     if p[6] != 0 {
         let idx = (p[6] - 1) as usize;
-        attrs.push(A::calling_convention(CC_NAMES[if idx < 8 { idx } else { 7 }]));
+        let cc = A::calling_convention(CC_NAMES[if idx < 8 { idx } else { 7 }]);
+        // attribute order varies with the receiver: `&mut self` functions carry the convention *before* address/index
+        if p[0] == 2 {
+            attrs.insert(0, cc);
+        } else {
+            attrs.push(cc);
+        }
     }
     let vis = if p[7] != 0 { V::Public } else { V::Private };
     let mut f = F::new((vis, name), args).with_attributes(attrs);
@@ -533,7 +539,7 @@ pub fn t_vft(a: &[i64]) -> Val {
 // t_graph: k types T0..T{k-1} in module `m` (and optionally some in module `n`, imported by `m`), each with up to two
 // fields whose type is chosen per field (C10, C09, C02).
 // a = [ps, k, order, per type i (stride 7): in_n, nf, (kind, target) x 2, align]
-// field kind: 0 u32, 1 T_j by value, 2 *const T_j, 3 [T_j; 2], 4 #[base] T_j, 5 undefined name, 6 u64, 7 enum E (u32)
+// field kind: 0 u32, 1 T_j by value, 2 *const T_j, 3 [T_j; 2], 4 #[base] T_j, 5 undefined name, 6 u64, 7 enum E (u32), 8 [T_j; 0]
 // order: definitions of module m are emitted rotated by `order`.
 const TYPE_NAMES: [&str; 5] = ["T0", "T1", "T2", "T3", "T4"];
 const GF_NAMES: [&str; 2] = ["p", "q"];
@@ -560,6 +566,7 @@ pub fn t_graph(a: &[i64]) -> Val {
                 3 => T::ident(tn).array(2),
                 5 => T::ident("Nope"),
                 6 => T::ident("u64"),
+                8 => T::ident(tn).array(0),
                 _ => T::ident("E"),
             };
             let mut st = TS::field((V::Public, GF_NAMES[j]), ty);
@@ -644,10 +651,19 @@ pub fn t_scope(a: &[i64]) -> Val {
         }
         i += 1;
     }
-    let mut ma = M::new().with_uses(uses).with_definitions([ID::new(
-        (V::Public, "R"),
-        TD::new([TS::field((V::Public, "f"), T::ident(name))]).with_attributes([A::align(4)]),
-    )]);
+    let mut ma = M::new()
+        .with_uses(uses)
+        .with_definitions([ID::new(
+            (V::Public, "R"),
+            TD::new([TS::field((V::Public, "f"), T::ident(name))]).with_attributes([A::align(4)]),
+        )])
+        // the same name used as the type of an extern value and behind a pointer in a function signature
+        .with_extern_values([EV::new(V::Public, "ev", T::ident(name), [A::integer_fn("address", 64)])])
+        .with_impls([FB::new(
+            "R",
+            [F::new((V::Public, "g"), [Ar::ConstSelf, Ar::named("p", T::ident(name).const_pointer())])
+                .with_attributes([A::integer_fn("address", 128)])],
+        )]);
     if a[2] != 0 {
         ma = ma.with_extern_types(ext(8));
     }
@@ -978,6 +994,11 @@ pub fn t_order_graph(a: &[i64]) -> Val {
     Val::L(vec![t_graph(a), t_graph(a)])
 }
 
+// t_order_scope: t_scope twice (C09): name lookup must not depend on hash-map / hash-set iteration order.
+pub fn t_order_scope(a: &[i64]) -> Val {
+    Val::L(vec![t_scope(a), t_scope(a)])
+}
+
 // t_order_vft: generated vftable types referenced from signatures, built twice (C09).
 //   A { vftable { f(&self) }, x }   B { y }  impl B { #[address(16)] fn g(&self, p: ARG) }
 //   C { vftable { h(&self, q: ARG2) }, z }   extern ev: ARG3 at 32
@@ -1263,6 +1284,7 @@ pub const TEMPLATES: &[(&str, Template)] = &[
     ("t_nest", t_nest),
     ("t_order_graph", t_order_graph),
     ("t_order_vft", t_order_vft),
+    ("t_order_scope", t_order_scope),
     ("t_equiv", t_equiv),
     ("t_unrelated", t_unrelated),
     ("t_odd", t_odd),
